@@ -22,8 +22,14 @@ vars == <<row, stage, result>>
 Payloads == {"canonical", "noncanonical", "unparseable"}
 \* relative to the carried payload bytes and the key of the carried certificate
 Sigs == {"valid", "over_other", "other_key", "pkcs1", "sha384", "garbage", "absent"}
-Certs == {"genuine", "absent", "garbage", "self_signed_evil", "evil_chain"}
-Roots == {"nil", "empty", "R", "foreign", "R_and_foreign"}
+\* "genuine_*issued": the genuine signing key's certificate, issued by the genuine root with another
+\* signature scheme than RSA-PSS/SHA-256 (the scheme of the *payload* signature is fixed by the
+\* statement, whatever scheme the issuer used on the certificate)
+GenuineCerts == {"genuine", "genuine_pkcs1issued", "genuine_sha384issued"}
+Certs == GenuineCerts \cup {"absent", "garbage", "self_signed_evil", "evil_chain"}
+\* "emptyfile": the caller's root set is empty and given as a zero-length file to the CLI, while the
+\* default root is downloadable: the caller still trusts nothing
+Roots == {"nil", "empty", "emptyfile", "R", "foreign", "R_and_foreign"}
 Times == {"before", "nb", "inside", "na", "after"}
 Provs == {"old_none", "new_none", "new_clspec", "new_commit"}   \* document date vs 2 Aug 2024, provenance
 Entries == {"Endorsement", "EndorsementProto", "SNPFunc_blob", "SNPFunc_opts", "SNPFunc_getter",
@@ -37,7 +43,7 @@ Rows == [payload : Payloads, sig : Sigs, cert : Certs, roots : Roots, time : Tim
 
 \* the declarative property
 SigOK(r) == r.sig = "valid" /\ r.payload # "unparseable"
-Chains(r) == r.cert = "genuine" /\ r.roots \in {"R", "R_and_foreign"} /\ r.time \in {"nb", "inside", "na"}
+Chains(r) == r.cert \in GenuineCerts /\ r.roots \in {"R", "R_and_foreign"} /\ r.time \in {"nb", "inside", "na"}
 Authentic(r) == SigOK(r) /\ Chains(r)
 
 Init == row \in Rows /\ stage = "entry" /\ result = "none"
